@@ -292,7 +292,12 @@ class Piece:
         lo, hi = self.start_off, self.end_off
         out = text[lo:hi]
         # apply edits from the back; stable for equal offsets (keep insertion order)
-        indexed = list(enumerate(self.edits))
+        # insertions that fall strictly inside a deleted / replaced range are dropped with it
+        ranges = [(a, b) for (a, b, _, _) in self.edits if b > a]
+        kept = [e for e in self.edits if not (e[0] == e[1] and any(ra < e[0] < rb for ra, rb in ranges))]
+        # nested replaced ranges: keep only the outermost
+        kept = [e for e in kept if not (e[1] > e[0] and any((ra <= e[0] and e[1] <= rb) and (ra, rb) != (e[0], e[1]) for ra, rb in ranges))]
+        indexed = list(enumerate(kept))
         indexed.sort(key=lambda e: (e[1][0], e[1][1], e[0]))
         # detect overlaps
         last_end = -1
